@@ -293,7 +293,11 @@ def probe(o, m):
 
 
 def adapt_bucket(exc, tag):
-    return f"eager-eval_op-raise:{type(exc).__name__}:{tag}"
+    """Root-cause key: exception type @ innermost onnxscript/onnx_ir frame (one bucket for all operators hitting the same line)."""
+    from vf import optcommon
+
+    del tag
+    return f"eager-eval_op-raise:{optcommon.innermost_frame(exc)}"
 
 
 def dep_bucket(d, m):
@@ -738,9 +742,11 @@ def check_ort(name):
     rb = execs.run_ort(bare, feeds)
     if rb[0] != "ok":
         return [], "ort:bare-node-not-runnable", [], None, False
+    ort_eval = evaluator.ORTEvaluator()
+    method = getattr(o, node.op_type)
     try:
-        with evaluator.default_as(evaluator.ort_evaluator):
-            res = getattr(o, node.op_type)(*args, **attrs)
+        with evaluator.default_as(ort_eval):
+            res = method(*args, **attrs)
     except Exception as e:  # noqa: BLE001  (evaluator limitations are not C17's subject)
         return [], f"ort:eager-raised:{type(e).__name__}", [], None, False
     outs = list(res) if isinstance(res, (list, tuple)) else [res]
@@ -748,13 +754,21 @@ def check_ort(name):
     classes = ["ort:executed", f"ort:defaults-left-out-{min(len(omitted), 3)}"]
     key = ("ort", node.op_type, int(spec.since_version), name)
     diff = None
-    for k, (p, q) in enumerate(zip(outs, rb[1])):
+    bare_by_name = {vi.name: r for vi, r in zip(model.graph.output, rb[1])}
+    compared = 0
+    for k, oname in enumerate(node.output):  # eager result k <-> node output k (the model may expose only some of them)
+        if oname == "" or oname not in bare_by_name or k >= len(outs):
+            continue
+        p, q = outs[k], bare_by_name[oname]
         if isinstance(p, list) or isinstance(q, list) or p is None:
             continue
+        compared += 1
         diff = compare.same_array(np.asarray(p), np.asarray(q))
         if diff:
-            diff = f"output[{k}]: {diff}"
+            diff = f"output[{k}] ({oname}): {diff}"
             break
+    if not compared:
+        return [], "ort:no-comparable-output", [], None, False
     if not diff:
         return [], "ok", classes, key, bool(omitted)
     # is the runtime itself sensitive to writing the schema defaults out?  then it is not onnxscript's doing
@@ -774,7 +788,7 @@ def check_ort(name):
 
 # ----------------------------------------------------------------------------- plan / run
 def plan(tier, seed, budget):
-    drawn = max(1, int((4 if tier == "quick" else 80) * budget))
+    drawn = max(1, int((12 if tier == "quick" else 200) * budget))
     return [{"part": i, "parts": SHARDS, "drawn": drawn, "base_seed": int(seed)} for i in range(SHARDS)]
 
 
@@ -935,4 +949,24 @@ def _region(d, m, v):
 # named regions for known findings: "deprecated:<domain>:<Op>" = every opset version at which onnx marks <Op> deprecated;
 # "method:<domain>:<Op>" = every unit about that operator name in that domain (any version)
 REGIONS = {f"deprecated:{_dom(d)}:{m}": _region(d, m, v) for d, m, v in deprecated_ops()}
+
+
+def _schema_region(pred_schema):
+    def pred(case):
+        if case.get("unit") != "method":
+            return False
+        o = opsets().get((case.get("domain"), case.get("version")))
+        fn = getattr(type(o), case.get("name", ""), None) if o is not None else None
+        if fn is None:
+            return False
+        sch = spec_schema(case["name"], defining_version(o, case["name"]), case["domain"])
+        return sch is not None and pred_schema(sch)
+
+    return pred
+
+
+# operators whose schema onnx_ir's OpSignature cannot represent (Op.op_signature raises, so BaseEvaluator.eval_op raises)
+REGIONS["schema:input-and-attribute-share-a-name"] = _schema_region(lambda s: any(i.name in s.attributes for i in s.inputs))
+REGIONS["schema:map-typed-input-or-output"] = _schema_region(
+    lambda s: any("map(" in t for tc in s.type_constraints for t in tc.allowed_type_strs) or any("map(" in p.type_str for p in list(s.inputs) + list(s.outputs)))
 REGIONS.update({f"method:{_dom(d)}:{m}": _region(d, m, 0) for d in sorted({k[0] for k in opsets()}) for m in sorted(schema_versions().get(d, {}))})
